@@ -1,12 +1,21 @@
 (* C07  After any seek the reported position matches the audio delivered.
    Model: VFile.v (position bookkeeping of lib/vorbisfile.c on the page table).
-   Proved so far: the consuming step of every read advances the position by
-   exactly the samples returned (times two under half-rate) and touches nothing
-   else; what remains pending shrinks by that count.  The full refinement
-   (position = index of the next sample of the linear decode after ANY history)
-   is established per run by the tie and the bit-exact oracle, not yet by proof:
-   see DESIGN.md section 4 (C07). *)
-From VV Require Import Blocking VFile VFile_lemmas VFileDemo.
+   Proved: (1) the consuming step of every read advances the position by exactly
+   the samples returned (times two under half-rate) and touches nothing else;
+   (2) TRUTHFULNESS on intact streams, full rate: if the handle is in sync (the
+   reported position is the position of the next sample inside the link, the
+   decoder's own tracking agrees, everything decoded has been read), then after
+   ANY number of further packets of the link - each with or without a granule
+   position, as the stream's page layout dictates - every packet makes exactly
+   its block step available, the reported position has advanced by exactly the
+   samples delivered, and the handle is in sync again.  So positions stay
+   truthful for the whole linear decode from any synchronised point, whatever
+   the page layout.  NOT proved: that every seek re-establishes that invariant
+   (the seek loops are tied per run by the bit-exact oracle), half-rate, the
+   end-of-stream trim: see DESIGN.md section 13. *)
+From VV Require Import Blocking VFile VFile_lemmas VFileDemo Sync_lemmas.
+From Coq Require Import ZArith List.
+Import ListNotations.
 Local Open Scope Z_scope.
 
 Theorem C07_read_advances_by_count_partial :
@@ -25,6 +34,35 @@ Theorem C07_pending_shrinks_by_count :
     dec_pcmout (snd (dec_read d n)) = dec_pcmout d - n.
 Proof. exact dec_read_pcmout. Qed.
 Print Assumptions C07_pending_shrinks_by_count.
+
+(* one packet: the position reported after it is the position of the first sample it made pending *)
+Theorem C07_position_truthful_per_packet :
+  forall s here p w, SyncInv s here -> intact s here p w ->
+    let stp := bsz (cur_cfg s) (d_W (v_dec s)) / 4 + bsz (cur_cfg s) w / 4 in
+    let '(n, s2) := drain (feed s p w) in
+    n = stp /\ SyncInv s2 (here + stp) /\ d_W (v_dec s2) = w.
+Proof. exact feed_drain_sync. Qed.
+Print Assumptions C07_position_truthful_per_packet.
+
+(* any number of packets: position = start + samples delivered, and still in sync *)
+Theorem C07_linear_read_positions_truthful :
+  forall ps s here, SyncInv s here -> intact_seq s here ps ->
+    let '(s', ns) := run_link s ps in
+    let total := fold_right Z.add 0 ns in
+    SyncInv s' (here + total) /\ v_pcm s' = v_pcm s + total /\ Forall (fun n => 0 <= n) ns.
+Proof. exact linear_read_sync. Qed.
+Print Assumptions C07_linear_read_positions_truthful.
+
+(* non-vacuity of the hypotheses: the demo handle after its first read is in sync at
+   position 32 and its next packet (long block, granule 176 = 32 + 64/4 + 512/4) is intact *)
+Example C07_sync_nonvacuous :
+  let s1 := snd (read_float (read_fuel demo) demo 1000) in
+  SyncInv s1 32 /\ intact s1 32 {| pk_W := Some true; pk_gran := 176; pk_eos := false |} true.
+Proof.
+  split.
+  - unfold SyncInv. vm_compute. repeat split; try discriminate; try reflexivity; try (intros H; discriminate H). right. reflexivity.
+  - unfold intact. vm_compute. split; [reflexivity|right; reflexivity].
+Qed.
 
 (* non-vacuity: a two-link page table on which the model seeks and reads *)
 Example C07_demo_runs :
